@@ -35,6 +35,27 @@ then the equivalence theorems of coq/Proofs/GenDensityReuseEq.v (Props/C17gen.v)
                                      selected for point i); `self.hat_function_non_symmetric(hat, domain, data[x])` -> hatvals[i][x];
                                      `sign = 1.0` / `if self.classes is not None: sign = self.classes[x]` -> `sign = signs[x]`
                                      (signs = the labels, or ones).  `return b` is appended.
+  c17_post_processing(new_B, new_grid_coord)
+                                     post_processing (found in the class or a base class in the module): the body of its leading
+                                     `if self.reuse_old_values:` (hand-over new_B -> old_B, new_grid_coord -> old_grid_coord, both new
+                                     dictionaries emptied); `assert len(new_B) + len(new_grid_coord) == 0` and `return (old_B, old_grid_coord)` are appended: the
+                                     generated function has a result only if the block empties both new dictionaries.
+  c17_find_closest_old_B(old_B, old_grid_coord, gridPointCoordinatesAsStripes, dim)
+                                     find_closest_old_B up to `closest_match_key = ..` and the final `return closest_match_key`; the
+                                     statements in between / after it (new_coordinates_indices = .., new_coordinates, new_points and the
+                                     loop that fills new_points) only compute values that are never used and are dropped (their exact
+                                     texts are checked; they index lists with indices that exist by construction and call
+                                     get_cross_product, so they do not raise).
+                                     DICTIONARY VIEWS of these two fragments: the dictionaries self.old_B / self.new_B / self.old_grid_coord /
+                                     self.new_grid_coord become locals / parameters (attribute path -> name); their keys, the strings
+                                     str(max_levels), are only looked up, inserted and returned here - they are VIEWED as the int tuples
+                                     max_levels (str is injective on int lists), so the dictionaries are the association lists of
+                                     Base/PyLib.v; `for key in D.keys()` -> `for key, c17_vN in D.items()`;
+                                     a read-only alias `old_coordinates = old_grid_coord[key]` is inlined; `x not in <list of floats>` ->
+                                     not py_c17_float_in(x, l); `l.index(x)` on floats -> py_c17_float_index(l, x) (coq/Base/PyC17.v);
+                                     `L.append([])` followed by a loop that only does `L[d].append(e)` (d = the current last index: L is
+                                     empty before `for d in range(..)`) -> a local row that is appended (copied) after the loop;
+                                     `S.append(L)` of a local list L that is rebound before its next use -> `S.append(list(L))`.
 The synthetic methods are printed into the generated file as a comment (ast.unparse), so the reader sees what was translated.
 Usage: py2gallina_c17.py [--repo DIR] [--out FILE] [--stdout]      (VERIF_REPO is respected like in the shared translator)"""
 import ast as _ast
@@ -48,7 +69,7 @@ import py2gallina as P          # noqa: E402
 TARGET = 'densityreuse'
 SRC = 'sparseSpACE/GridOperation.py'
 CLASS = 'DensityEstimation'
-METHODS = ['c17_init_data_bins', 'c17_scan_range', 'c17_reuse_branch']
+METHODS = ['c17_init_data_bins', 'c17_scan_range', 'c17_reuse_branch', 'c17_post_processing', 'c17_find_closest_old_B']
 P.NUM_TARGETS[TARGET] = dict(
     file=SRC, out='DensityReuseGen.v', prop='C17',
     classes=[dict(name=CLASS, mode='param', methods=METHODS, attrs={})],
@@ -223,6 +244,192 @@ def frag_reuse(cls):
                  'hatvals: List[List[float]], signs: List[float]) -> List[float]', body, br)
 
 
+class SelfToLocal(_ast.NodeTransformer):
+    """self.<attr> -> <attr> for the listed attributes (both loads and stores)"""
+    def __init__(self, names):
+        self.names = names
+
+    def visit_Attribute(self, a):
+        if isinstance(a.value, _ast.Name) and a.value.id == 'self' and a.attr in self.names:
+            return _ast.copy_location(_ast.Name(id=a.attr, ctx=a.ctx), a)
+        return self.generic_visit(a)
+
+
+class KeysToItems(_ast.NodeTransformer):
+    def __init__(self):
+        self.n = 0
+
+    def visit_For(self, f):
+        f = self.generic_visit(f)
+        if isinstance(f.iter, _ast.Call) and isinstance(f.iter.func, _ast.Attribute) and f.iter.func.attr == 'keys' \
+                and not f.iter.args and isinstance(f.iter.func.value, _ast.Name) and isinstance(f.target, _ast.Name):
+            self.n += 1
+            f.iter = _ast.copy_location(_ast.parse('%s.items()' % f.iter.func.value.id, mode='eval').body, f.iter)
+            f.target = _ast.copy_location(_ast.Tuple(elts=[f.target, _ast.Name(id='c17_v%d' % self.n, ctx=_ast.Store())],
+                                                     ctx=_ast.Store()), f.target)
+        return f
+
+
+def frag_post(mod, cls):
+    pp = None
+    for st in mod.body:
+        if isinstance(st, _ast.ClassDef):
+            for m in st.body:
+                if isinstance(m, _ast.FunctionDef) and m.name == 'post_processing' and any(
+                        isinstance(s, _ast.If) and txt(s.test) == 'self.reuse_old_values' for s in m.body):
+                    if pp is not None:
+                        rej(m, 'two post_processing methods with a re-use block')
+                    pp = m
+    if pp is None:
+        rej(cls, 'post_processing with `if self.reuse_old_values:` not found')
+    blk = [s for s in pp.body if isinstance(s, _ast.If) and txt(s.test) == 'self.reuse_old_values']
+    if len(blk) != 1 or blk[0].orelse:
+        rej(pp, 'post_processing: exactly one `if self.reuse_old_values:` without else expected')
+    # nothing else in post_processing may touch the four dictionaries
+    for s in pp.body:
+        if s is blk[0]:
+            continue
+        for n in _ast.walk(s):
+            if isinstance(n, _ast.Attribute) and n.attr in ('old_B', 'new_B', 'old_grid_coord', 'new_grid_coord'):
+                rej(n, 'post_processing: %s is used outside the re-use block' % n.attr)
+    names = ('old_B', 'new_B', 'old_grid_coord', 'new_grid_coord')
+    body = [SelfToLocal(names).visit(copy.deepcopy(s)) for s in blk[0].body]
+    kt = KeysToItems()
+    body = [kt.visit(s) for s in body]
+    # an empty dictionary assigned to one of the two NEW dictionaries keeps their declared type (typed empty association list)
+    for k, s_ in enumerate(body):
+        if isinstance(s_, _ast.Assign) and len(s_.targets) == 1 and txt(s_.value) == '{}' and txt(s_.targets[0]) in ('new_B', 'new_grid_coord'):
+            body[k] = _ast.copy_location(_ast.parse('%s = py_c17_empty_%s()' % (txt(s_.targets[0]), txt(s_.targets[0]))).body[0], s_)
+    for s in body:
+        for n in _ast.walk(s):
+            if isinstance(n, _ast.Name) and n.id == 'self':
+                rej(n, 'post_processing: re-use block uses self outside the views')
+    body.append(_ast.copy_location(_ast.parse('assert len(new_B) + len(new_grid_coord) == 0').body[0], blk[0]))
+    body.append(_ast.copy_location(_ast.parse('return (old_B, old_grid_coord)').body[0], blk[0]))
+    return synth('c17_post_processing',
+                 'c17_post_processing(self, new_B: Dict[Tuple[int, ...], List[float]], '
+                 'new_grid_coord: Dict[Tuple[int, ...], List[List[float]]])', body, blk[0])
+
+
+DEAD_TAIL = ['new_coordinates_indices = new_coordinate_sets[differences.index(min(differences))]',
+             'new_coordinates = [[gridPointCoordinatesAsStripes[d][x] for x in new_coordinates_indices[d]] for d in range(self.dim)]',
+             'new_points = []']
+
+
+def frag_closest(cls):
+    fc = method(cls, 'find_closest_old_B')
+    body = [s for s in fc.body if not (isinstance(s, _ast.Expr) and isinstance(s.value, _ast.Constant))]
+    if not (body and txt(body[-1]) == 'return closest_match_key'):
+        rej(fc, 'find_closest_old_B does not end with `return closest_match_key`')
+    kept, dead = [], []
+    for s in body[:-1]:
+        t = txt(s)
+        if t in DEAD_TAIL:
+            dead.append(s)
+        elif isinstance(s, _ast.For) and txt(s.iter) == 'range(self.dim)' and len(s.body) == 1 and isinstance(s.body[0], _ast.If) \
+                and txt(s.body[0].test) == 'len(new_coordinates[d]) > 0' and kept and txt(kept[-1]).startswith('closest_match_key = '):
+            dead.append(s)          # the loop that fills new_points
+        else:
+            kept.append(s)
+    deadnames = set()
+    for s in dead:
+        for n in _ast.walk(s):
+            if isinstance(n, _ast.Name) and isinstance(n.ctx, _ast.Store):
+                deadnames.add(n.id)
+    deadnames -= {'d', 'x'}
+    # a dropped statement may only feed other dropped statements: after the first dropped one no kept statement reads their names
+    seen_dead = False
+    for s in body[:-1]:
+        if s in dead:
+            seen_dead = True
+        elif seen_dead:
+            for n in _ast.walk(s):
+                if isinstance(n, _ast.Name) and isinstance(n.ctx, _ast.Load) and n.id in deadnames:
+                    rej(n, 'find_closest_old_B: %s (computed by a dropped statement) is used' % n.id)
+    if len(dead) != 4:
+        rej(fc, 'find_closest_old_B: the unused tail is not the expected four statements (%d found)' % len(dead))
+    body = [copy.deepcopy(s) for s in kept] + [copy.deepcopy(body[-1])]
+    body = [SelfToLocal(('old_B', 'old_grid_coord', 'dim')).visit(s) for s in body]
+    kt = KeysToItems()
+    body = [kt.visit(s) for s in body]
+
+    class Norm(_ast.NodeTransformer):
+        def __init__(self):
+            self.alias = None
+
+        def block(self, stmts):
+            out = []
+            k = 0
+            while k < len(stmts):
+                s = stmts[k]
+                # read-only alias of a dictionary entry: inlined
+                if txt(s) == 'old_coordinates = old_grid_coord[key]':
+                    self.alias = True
+                    k += 1
+                    continue
+                # L.append([]) + loop over i that only appends to L[d]
+                if isinstance(s, _ast.Expr) and txt(s) == 'new_coordinates_indices.append([])' and k + 1 < len(stmts) \
+                        and isinstance(stmts[k + 1], _ast.For):
+                    loop = stmts[k + 1]
+                    uses = [n for n in _ast.walk(loop) if isinstance(n, _ast.Name) and n.id == 'new_coordinates_indices']
+                    apps = [n for n in _ast.walk(loop) if isinstance(n, _ast.Call) and txt(n.func) == 'new_coordinates_indices[d].append']
+                    if len(uses) != len(apps) or not apps:
+                        rej(loop, 'find_closest_old_B: new_coordinates_indices is used other than by new_coordinates_indices[d].append(..)')
+
+                    class Row(_ast.NodeTransformer):
+                        def visit_Call(self, c):
+                            c = self.generic_visit(c)
+                            if txt(c.func) == 'new_coordinates_indices[d].append':
+                                c.func = _ast.copy_location(_ast.parse('c17_row.append', mode='eval').body, c.func)
+                            return c
+                    out.append(_ast.copy_location(_ast.parse('c17_row = []').body[0], s))
+                    out.append(Row().visit(loop))
+                    out.append(_ast.copy_location(_ast.parse('new_coordinates_indices.append(list(c17_row))').body[0], s))
+                    k += 2
+                    continue
+                if txt(s) == 'new_coordinate_sets.append(new_coordinates_indices)':
+                    out.append(_ast.copy_location(_ast.parse('new_coordinate_sets.append(list(new_coordinates_indices))').body[0], s))
+                    k += 1
+                    continue
+                for f in ('body', 'orelse'):
+                    if isinstance(getattr(s, f, None), list) and not isinstance(s, _ast.expr):
+                        setattr(s, f, self.block(getattr(s, f)))
+                out.append(s)
+                k += 1
+            return out
+    nm = Norm()
+    body = nm.block(body)
+    # the loop over d must start from an empty list (the row index d is then the last index)
+    src = '\n'.join(txt(s) for s in body)
+    if 'new_coordinates_indices = []\n' not in src + '\n' and 'new_coordinates_indices = []' not in src:
+        rej(fc, 'find_closest_old_B: new_coordinates_indices is not initialised with []')
+    ts = TextSubst({'old_coordinates[d]': 'old_grid_coord[key][d]'})
+    body = [ts.visit(s) for s in body]
+
+    class Floats(_ast.NodeTransformer):
+        def visit_Compare(self, n):
+            if len(n.ops) == 1 and isinstance(n.ops[0], _ast.NotIn) and txt(n.comparators[0]) == 'old_grid_coord[key][d]':
+                return _ast.copy_location(_ast.parse('not py_c17_float_in(%s, old_grid_coord[key][d])' % txt(n.left), mode='eval').body, n)
+            return self.generic_visit(n)
+
+        def visit_Call(self, c):
+            c = self.generic_visit(c)
+            if isinstance(c.func, _ast.Attribute) and c.func.attr == 'index' and txt(c.func.value) == 'gridPointCoordinatesAsStripes[d]' \
+                    and len(c.args) == 1:
+                return _ast.copy_location(_ast.parse('py_c17_float_index(gridPointCoordinatesAsStripes[d], %s)' % txt(c.args[0]), mode='eval').body, c)
+            return c
+    body = [Floats().visit(s) for s in body]
+    for s in body:
+        for n in _ast.walk(s):
+            if isinstance(n, _ast.Name) and n.id in ('self', 'old_coordinates'):
+                rej(n, 'find_closest_old_B: uses %s outside the views' % n.id)
+    return synth('c17_find_closest_old_B',
+                 'c17_find_closest_old_B(self, old_B: Dict[Tuple[int, ...], List[float]], '
+                 'old_grid_coord: Dict[Tuple[int, ...], List[List[float]]], gridPointCoordinatesAsStripes: List[List[float]], dim: int)',
+                 body, fc)
+
+
+
 class _AstProxy(object):
     """the module `ast` as seen by the shared translator: parse() of the target file appends the synthetic methods to the class"""
     def __getattr__(self, name):
@@ -234,10 +441,22 @@ class _AstProxy(object):
             for st in mod.body:
                 if isinstance(st, _ast.ClassDef) and st.name == CLASS and not any(
                         isinstance(m, _ast.FunctionDef) and m.name in METHODS for m in st.body):
-                    st.body += [frag_init(st), frag_scan(st), frag_reuse(st)]
+                    st.body += [frag_init(st), frag_scan(st), frag_reuse(st), frag_post(mod, st), frag_closest(st)]
         return mod
 
 
+_BaseTr = P.NumTranslator
+
+
+class C17Translator(_BaseTr):
+    def ann(self, a, node):
+        if self.tname == TARGET and isinstance(a, _ast.Subscript) and isinstance(a.value, _ast.Name) and a.value.id == 'Dict' \
+                and isinstance(a.slice, _ast.Tuple) and len(a.slice.elts) == 2 and txt(a.slice.elts[0]) == 'Tuple[int, ...]':
+            return ('dict', P.TUPI, self.ann(a.slice.elts[1], node))
+        return _BaseTr.ann(self, a, node)
+
+
+P.NumTranslator = C17Translator
 _BaseFn = P.NumFnTranslator
 TUPF = ('tuple', P.FLOAT)
 
@@ -250,6 +469,19 @@ class C17FnTranslator(_BaseFn):
             b1, t1, ty1 = self.expr(c.args[1], env)
             self.need(ty0 == TUPF and ty1 == ('list', TUPF), c, 'py_c17_tuple_in of %s, %s' % (ty0, ty1))
             return b0 + b1, '(py_c17_tuple_in %s %s)' % (t0, t1), P.BOOL
+        if self.tr.tname == TARGET and isinstance(fn, _ast.Name) and fn.id in ('py_c17_float_in', 'py_c17_float_index') and fn.id not in env:
+            b0, t0, ty0 = self.expr(c.args[0], env)
+            b1, t1, ty1 = self.expr(c.args[1], env)
+            if fn.id == 'py_c17_float_in':
+                self.need(ty0 == P.FLOAT and ty1 == ('list', P.FLOAT), c, 'py_c17_float_in of %s, %s' % (ty0, ty1))
+                return b0 + b1, '(py_c17_float_in %s %s)' % (t0, t1), P.BOOL
+            self.need(ty0 == ('list', P.FLOAT) and ty1 == P.FLOAT, c, 'py_c17_float_index of %s, %s' % (ty0, ty1))
+            v = self.temp()
+            return b0 + b1 + [(v, 'py_c17_float_index %s %s' % (t0, t1))], v, P.INT
+        if self.tr.tname == TARGET and isinstance(fn, _ast.Name) and fn.id in ('py_c17_empty_new_B', 'py_c17_empty_new_grid_coord') \
+                and fn.id not in env and not c.args:
+            vt = ('list', P.FLOAT) if fn.id == 'py_c17_empty_new_B' else ('list', ('list', P.FLOAT))
+            return [], ('(@nil (list Z * list Qc))' if fn.id == 'py_c17_empty_new_B' else '(@nil (list Z * list (list Qc)))'), ('dict', P.TUPI, vt)
         if self.tr.tname == TARGET and isinstance(fn, _ast.Name) and fn.id == 'py_c17_empty_dict' and fn.id not in env and not c.args:
             return [], 'py_c17_empty_dict', ('list', ('list', P.FLOAT))
         return _BaseFn.call(self, c, env)
@@ -267,6 +499,9 @@ def render_c17(tr, fns):
             raise P.Reject(_ast.parse('0'), 'header of the shared translator changed (front end py2gallina_c17.py must follow)')
         text = text.replace(old, old[:-1] + ' Base.PyC17.', 1)
         text = text.replace('harness/translate/py2gallina.py --target ' + TARGET, 'harness/translate/py2gallina_c17.py', 1)
+        # the shared renderer prints `return x` of a "value or None" function as `Ret Some x` (missing parentheses): repaired here
+        import re as _re
+        text = _re.sub(r'\bRet Some (\w+)\)', r'Ret (Some \1))', text)
         doc = ['(* The synthetic methods cut out of %s by harness/translate/py2gallina_c17.py (what the shared translator saw):' % SRC]
         for m in METHODS:
             doc.append('   --- ' + m)
